@@ -6,6 +6,7 @@
 //!   wbsim worker ...                              (internal)
 
 mod batch;
+mod check_extra;
 mod check_import;
 mod check_locks;
 mod check_wire;
